@@ -44,6 +44,7 @@ type c13OcAcc struct {
 	unresolved           []string
 	unf                  c13Unf
 	nReq                 int
+	noStray              bool // fixture mode: only the given release functions are examined
 	nSlotWaits           int
 	waitBad, waitUnknown []string
 	posWait              token.Pos
@@ -730,6 +731,11 @@ func c13AnalyseReleases(c *Ctx, ro *c13Roles, acc *c13OcAcc) *c13RelInfo {
 						return st
 					}
 					if namedKey(v.Common().Value.Type()) == "context.CancelCauseFunc" && !v.Common().IsInvoke() && len(v.Common().Args) == 1 {
+						// wg.Done is what lets a waiting writer go: the reader must have been
+						// told to stop (its context cancelled) before that signal
+						if st&c13rlDone != 0 && st&c13rlCause == 0 {
+							causeBad = append(causeBad, "the reader's context is cancelled at "+p.Pos(instrPos(in))+" only after wg.Done has signalled the writer: the writer can be granted while the reader has neither released nor been told to stop")
+						}
 						if c13FromField(p, x, v.Common().Args[0], ro.ocCause, 0) {
 							return st | c13rlCause
 						}
@@ -855,6 +861,9 @@ func c13AnalyseReleases(c *Ctx, ro *c13Roles, acc *c13OcAcc) *c13RelInfo {
 	}
 	// wg.Done on OuterCancel's WaitGroup anywhere else
 	for _, fn := range ro.pkgFuncs(ro.oc) {
+		if acc.noStray {
+			break
+		}
 		stray := false
 		allInstrs(fn, func(in ssa.Instruction) {
 			if ci, ok := in.(ssa.CallInstruction); ok && callIs(ci, "sync", "WaitGroup", "Done") && !visitedDone[in] && len(ci.Common().Args) > 0 {
@@ -1256,4 +1265,32 @@ func c13FromCollection(x *C13Ctx, v ssa.Value, table FieldID, depth int) bool {
 		}
 	}
 	return false
+}
+
+// c13ReleaseFixture runs the reader-release rules on fixtures/c13rel: every
+// Good*/Bad* method of the fixture's reader type is examined as a release function.
+func c13ReleaseFixture(fp *Prog, fr *Report) {
+	oc := fp.Named("", "owner")
+	rd := fp.Named("", "reader")
+	ro := &c13Roles{p: fp, oc: oc}
+	ro.ocGuard, ro.ocTable, ro.ocWG, ro.ocCause = c13Fid(oc, "mu"), c13Fid(oc, "table"), c13Fid(oc, "wg"), c13Fid(oc, "cause")
+	for i := 0; i < rd.NumMethods(); i++ {
+		m := rd.Method(i)
+		lower := strings.ToLower(m.Name())
+		if !strings.HasPrefix(lower, "good") && !strings.HasPrefix(lower, "bad") {
+			continue
+		}
+		fn := origin(fp.SSA.FuncValue(m))
+		sub := NewReport("fixture:c13rel:"+m.Name(), fr.Tier)
+		acc := &c13OcAcc{releases: map[*ssa.Function][]ssa.Value{fn: nil}, graces: map[*ssa.Function][]ssa.Value{}, noStray: true}
+		c13AnalyseReleases(&Ctx{P: fp, R: sub}, ro, acc)
+		var bad []string
+		for _, o := range sub.Obs {
+			if o.Status == StViolation {
+				bad = append(bad, o.Message)
+			}
+		}
+		bad = append(bad, sub.Undecided...)
+		fr.Check(len(bad) == 0, "release", FuncName(fp, fn), fp.Pos(fn.Pos()), "clean", "release rule broken", bad...)
+	}
 }
